@@ -91,7 +91,7 @@ def check(ctx):
     from .C08 import check_single_child
     check_single_child(ctx)
     from .C10 import check_node_identity
-    check_node_identity(ctx, ('type_assignment.election', 'taxonomy.taxonomy_tree'), floor=2)
+    check_node_identity(ctx, ('type_assignment.election', 'taxonomy.'), floor=2)
 
 
 def _node_of(cfg, rd, astn):
